@@ -69,10 +69,22 @@
 
 #![cfg_attr(docsrs, feature(doc_cfg, doc_auto_cfg))]
 
+#[cfg(not(feature = "verif"))]
 mod dialer_select;
+#[cfg(feature = "verif")]
+pub mod dialer_select;
+#[cfg(not(feature = "verif"))]
 mod length_delimited;
+#[cfg(feature = "verif")]
+pub mod length_delimited;
+#[cfg(not(feature = "verif"))]
 mod listener_select;
+#[cfg(feature = "verif")]
+pub mod listener_select;
+#[cfg(not(feature = "verif"))]
 mod negotiated;
+#[cfg(feature = "verif")]
+pub mod negotiated;
 #[cfg(not(feature = "verif"))]
 mod protocol;
 #[cfg(feature = "verif")]
